@@ -115,9 +115,11 @@ struct Variant {
     seed: u32,
     tone: u32,
     dotted: bool,
-    /// GSUB layout 1: vjmo and tjmo SHARE a lookup (role 0 -> 2); tjmo then adds a second lookup (role 2 -> 3).
-    /// The glyphs every role shows are the same as in layout 0 (one private lookup per feature).
-    shared: bool,
+    /// GSUB layout 0: one private lookup per feature. Layout 1: vjmo and tjmo SHARE a lookup (role 0 -> 2); tjmo then adds
+    /// a second lookup (role 2 -> 3); the glyphs every role shows are the same as in layout 0.
+    /// Layouts 2..4: the font has only SOME of the three features (2: tjmo; 3: tjmo + vjmo; 4: ljmo): a role whose
+    /// feature is missing shows the plain glyph.
+    layout: u32,
 }
 
 fn mix(seed: u32, cp: u32) -> u32 {
@@ -259,7 +261,17 @@ fn build_font(var: &Variant, rep: &[u32]) -> Vec<u8> {
     be16(&mut gsub, 10); // ScriptList
     be16(&mut gsub, 10 + 30); // FeatureList
     be16(&mut gsub, 10 + 30 + 38); // LookupList
-    // ScriptList (30 bytes): count, 2 records, Script table (4), LangSys (12)
+    // FeatureList records sorted by tag, with the lookups of each
+    let order: Vec<(&[u8; 4], Vec<u16>)> = match var.layout {
+        1 => vec![(b"ljmo", vec![0]), (b"tjmo", vec![1, 2]), (b"vjmo", vec![1])],
+        2 => vec![(b"tjmo", vec![2])],
+        3 => vec![(b"tjmo", vec![2]), (b"vjmo", vec![1])],
+        4 => vec![(b"ljmo", vec![0])],
+        _ => vec![(b"ljmo", vec![0]), (b"tjmo", vec![2]), (b"vjmo", vec![1])],
+    };
+    let nf = order.len() as u16;
+    let shared = var.layout == 1;
+    // ScriptList (24 + 2 nf bytes): count, 2 records, Script table (4), LangSys (6 + 2 nf)
     be16(&mut gsub, 2);
     gsub.extend_from_slice(b"DFLT");
     be16(&mut gsub, 14);
@@ -269,19 +281,15 @@ fn build_font(var: &Variant, rep: &[u32]) -> Vec<u8> {
     be16(&mut gsub, 0); // langSysCount
     be16(&mut gsub, 0); // lookupOrder
     be16(&mut gsub, 0xFFFF);
-    be16(&mut gsub, 3);
-    be16(&mut gsub, 0);
-    be16(&mut gsub, 1);
-    be16(&mut gsub, 2);
-    // FeatureList: count, 3 records (6 each), 3 feature tables (4 + 2 per lookup index)
-    let order: [(&[u8; 4], Vec<u16>); 3] = if var.shared {
-        [(b"ljmo", vec![0]), (b"tjmo", vec![1, 2]), (b"vjmo", vec![1])]
-    } else {
-        [(b"ljmo", vec![0]), (b"tjmo", vec![2]), (b"vjmo", vec![1])]
-    };
+    be16(&mut gsub, nf);
+    for i in 0..nf {
+        be16(&mut gsub, i);
+    }
+    let slist_len = 24 + 2 * nf;
+    gsub[6..8].copy_from_slice(&(10 + slist_len).to_be_bytes());
     let mut flist = Vec::new();
-    be16(&mut flist, 3);
-    let mut foff = 20u16;
+    be16(&mut flist, nf);
+    let mut foff = 2 + 6 * nf;
     for (tag, lks) in order.iter() {
         flist.extend_from_slice(*tag);
         be16(&mut flist, foff);
@@ -295,7 +303,7 @@ fn build_font(var: &Variant, rep: &[u32]) -> Vec<u8> {
         }
     }
     // patch the LookupList offset in the header (FeatureList length depends on the layout)
-    let ll = 10 + 30 + flist.len() as u16;
+    let ll = 10 + slist_len + flist.len() as u16;
     gsub[8..10].copy_from_slice(&ll.to_be_bytes());
     gsub.extend_from_slice(&flist);
     // LookupList: count, 3 offsets, 3 single substitutions (format 1: delta) of 8 + 6 + 10 bytes
@@ -306,7 +314,7 @@ fn build_font(var: &Variant, rep: &[u32]) -> Vec<u8> {
         be16(&mut gsub, 8 + 24 * r);
     }
     for r in 0..3u32 {
-        let (delta, first) = if var.shared && r == 2 { (n, 1 + 2 * n) } else { ((r + 1) * n, 1) };
+        let (delta, first) = if shared && r == 2 { (n, 1 + 2 * n) } else { ((r + 1) * n, 1) };
         be16(&mut gsub, 1); // type: single
         be16(&mut gsub, 0);
         be16(&mut gsub, 1);
@@ -384,7 +392,7 @@ fn serve() {
                 seed: p[2].parse().unwrap_or(0),
                 tone: p[3].parse().unwrap_or(0),
                 dotted: p[4] == "1",
-                shared: p.len() == 6 && p[5] == "1",
+                layout: if p.len() == 6 { p[5].parse().unwrap_or(0) } else { 0 },
             };
             rep = var.repertoire();
             font = build_font(&var, &rep);
